@@ -41,7 +41,7 @@ NEWTYPES = [("i32", ["0", "-17", "+5", "2147483648", "", " 1", "0x10", "१"]),
             ("std::net::IpAddr", ["127.0.0.1", "::1", "256.0.0.1", "localhost"]),
             # a user type whose inherent `from_str` is NOT its FromStr impl: `Field::from_str(src)` in an expansion would reach it
             ("Own", ["7", "x", "", "007"])]
-OWN_TYPE = ("#[derive(Debug, PartialEq)] pub struct Own(pub u8);\n"
+OWN_TYPE = ("#[derive(Debug, PartialEq, Clone)] pub struct Own(pub u8);\n"
             "impl core::str::FromStr for Own { type Err = core::num::ParseIntError; fn from_str(s: &str) -> Result<Own, Self::Err> { s.parse::<u8>().map(Own) } }\n"
             "impl Own { pub fn from_str(_s: &str) -> Result<Own, core::num::ParseIntError> { Ok(Own(213)) } }\n")
 
@@ -52,19 +52,26 @@ def probe_source(enums):
     for i, vs in enumerate(enums):
         vars_ = ", ".join(vname(v) for v in vs)
         idx = " ".join(f"En{i}::{vname(v)} => {j + 1}," for j, v in enumerate(vs))
-        parts.append(f"#[derive(derive_more::FromStr)]\npub enum En{i} {{ {vars_} }}\n"
-                     f"fn p{i}(s: &str) -> (i64, bool) {{ match En{i}::from_str(s) {{ Ok(v) => (match v {{ {idx} }}, true), "
+        # every third enum has a (defaulted) const parameter: the impl is for the enum with all of its generics
+        g = "<const K: usize = 0>" if i % 3 == 0 else ""
+        parts.append(f"#[derive(derive_more::FromStr)]\npub enum En{i}{g} {{ {vars_} }}\n"
+                     f"fn p{i}(s: &str) -> (i64, bool) {{ match <En{i}>::from_str(s) {{ Ok(v) => (match v {{ {idx} }}, true), "
                      f"Err(e) => (0, e.to_string().contains(\"En{i}\")) }} }}\n")
         arms.append(f"{i} => p{i}(s),")
     nt = []
     for j, (ty, corpus) in enumerate(NEWTYPES):
         parts.append(f"#[derive(derive_more::FromStr, Debug, PartialEq)]\npub struct Nt{j}(pub {ty});\n"
                      f"#[derive(derive_more::FromStr, Debug, PartialEq)]\npub struct Nn{j} {{ pub v: {ty} }}\n")
+        # the same newtypes generic over their field type: inline bound, where-clause (ending in a comma), lifetime + const
+        parts.append(f"#[derive(derive_more::FromStr, Debug, PartialEq)]\npub struct Gt{j}<T: Clone>(pub T) where T: core::fmt::Debug,;\n"
+                     f"#[derive(derive_more::FromStr, Debug, PartialEq)]\npub struct Gn{j}<T> where T: PartialEq {{ pub v: T }}\n")
         for s in corpus:
             lit = vlib.rust_str(s)
             nt.append(f'    {{ let a = Nt{j}::from_str({lit}).map(|n| n.0); let c = Nn{j}::from_str({lit}).map(|n| n.v); '
+                      f'let g = Gt{j}::<{ty}>::from_str({lit}).map(|n| n.0); let h = Gn{j}::<{ty}>::from_str({lit}).map(|n| n.v); '
                       f'let b = <{ty} as FromStr>::from_str({lit}); '
-                      f'println!("NT {{}}", (format!("{{:?}}", a) == format!("{{:?}}", b) && format!("{{:?}}", c) == format!("{{:?}}", b)) as u8); }}')
+                      f'println!("NT {{}}", (format!("{{:?}}", a) == format!("{{:?}}", b) && format!("{{:?}}", c) == format!("{{:?}}", b) '
+                      f'&& format!("{{:?}}", g) == format!("{{:?}}", b) && format!("{{:?}}", h) == format!("{{:?}}", b)) as u8); }}')
     parts.append("fn main() {\n" + "\n".join(nt) + """
     let stdin = std::io::stdin(); let out = std::io::stdout(); let mut out = std::io::BufWriter::new(out.lock());
     for line in stdin.lock().lines() { let line = line.unwrap(); let mut it = line.splitn(2, '\\t');
